@@ -69,6 +69,7 @@ TCDrop ==
                 /\ (n > 0 => Len(e.dbf) = hl + n * rl + 1)                  \* the rows really are there
                 /\ e.readback.err = ""
                 /\ e.readback.pairs = want /\ e.readback.iter = want        \* shape i with row i, in order
+                /\ ~e.typed.skipped => (e.typed.err = "" /\ e.typed.pairs = want)   \* and through the typed reads
            ELSE \* the known deviation explains the run only with exactly its signature
                 /\ e.readback.err # "panic"
                 /\ ns = nx /\ nd < ns
